@@ -124,6 +124,18 @@ for _pid in ("C01", "C02", "C03", "C04", "C05", "C07", "C08", "C09", "C11"):
     PLAN[_pid]["trusted"] = list(PLAN[_pid].get("trusted", [])) + [G_TRUST[-1]]
 
 
+def _native_engine(pid, tier, seed, known):
+    from .nat import engine as _ne
+    return _ne.engine(pid, tier, seed, known)
+
+
+from .nat import engine as _nat_mod
+for _pid in ("C02", "C03", "C11", "C12"):
+    PLAN[_pid].setdefault("extra", [])
+    PLAN[_pid]["extra"] = list(PLAN[_pid]["extra"]) + [_native_engine]
+    PLAN[_pid]["trusted"] = list(PLAN[_pid].get("trusted", [])) + _nat_mod.TRUSTED
+
+
 def symbols_for(P, KI):
     pats = [re.compile(p) for p in P.get("kernels", [])]
     out = []
